@@ -518,6 +518,44 @@ func (ex *Exec) goStmt(st *State, fr *Frame, in *ssa.Go) {
 		}
 		elems = append(elems, v)
 	}
+	// a goroutine that runs a function under contract is handed a state in which that function's
+	// precondition holds: checked here, at the go statement (the hand-off)
+	if !in.Call.IsInvoke() && ex.disc == nil {
+		if f, ok := ex.val(st, fr, in.Call.Value).(*ClosureV); ok && len(f.Bind) == 0 {
+			fc := ex.ctx.specs.Funcs[funcKey(f.Fn)]
+			if fc != nil && !fc.Extern && !fc.Iface && !fc.SpawnChecked && len(fc.Requires) > 0 {
+				ex.assumed["precondition of "+fc.Key+" is assumed (not checked) where "+funcKey(ex.fn)+" starts it with a go statement"] = true
+			}
+			if fc != nil && !fc.Extern && !fc.Iface && fc.SpawnChecked {
+				var args []Val
+				for _, a := range in.Call.Args {
+					args = append(args, ex.val(st, fr, a))
+				}
+				if env, err := ex.contractEnv(st, nil, fc, f.Fn.Signature, args); err != nil {
+					ex.errs = append(ex.errs, "contract-binding: "+err.Error())
+				} else {
+					if err := ex.bindLets(env, fc, st); err != nil {
+						ex.errs = append(ex.errs, "contract-binding: "+fc.Key+": "+err.Error())
+					}
+					for _, c := range fc.Requires {
+						g, err := env.evalBool(c.E)
+						if err != nil {
+							ex.bindingError(c, err)
+							continue
+						}
+						props := c.Props
+						if len(props) == 0 {
+							props = fc.Props
+						}
+						if ex.contract != nil && len(props) == 0 {
+							props = ex.contract.Props
+						}
+						ex.oblige(st, "spawn-precondition", fmt.Sprintf("%s:%s @ %s", fc.Key, c.Label, ex.srcLine(in)), props, g, c.Src)
+					}
+				}
+			}
+		}
+	}
 	h := "spawned:" + name
 	cur := ex.heap(st, h, SLog)
 	st.Heaps[h] = App(SLog, "lsnoc", cur, ex.valToElem(st, elems, nil))
